@@ -185,12 +185,15 @@ Section PrintSpec.
 
   (** *** the setting in which the command is considered: the world has the log
       file [data] under the configured name, reads of it do not fail, standard
-      output never fails, the layout is one the model covers, no period is set *)
+      output never fails, the layout is one the model covers (any period) *)
   Definition print_setting (w : world) (op : options) (data : bytes) (toks : list ltoken) : Prop :=
     w_sink w = None
     /\ op_log op <> []
     /\ lookup_fs w (op_log op) = Some (FFile data)
     /\ lookup (op_log op) (w_read_fault w) = None
-    /\ tokenize (op_fmt op) = Some toks
-    /\ op_begin op = None /\ op_end op = None.
+    /\ tokenize (op_fmt op) = Some toks.
+
+  (** the days of the configured period *)
+  Definition in_period (op : options) (d : lognode) : bool :=
+    in_interval (op_begin op) (op_end op) (ln_time NM d).
 End PrintSpec.
